@@ -9,5 +9,11 @@ open Emboss.Pipeline
 #print axioms C16_format_total_before_fix_counterexample
 #print axioms C16_import_queue_terminates
 #print axioms C16_import_queue_result
-#print axioms C16_caret_in_line_partial
+#print axioms C16_locations_in_file
+#print axioms C16_caret_in_line
+#print axioms C16_caret_in_line_inline
+#print axioms C16_find_and_read_total
+#print axioms C16_unreadable_file_group
+#print axioms C16_embossc_exit
+#print axioms C16_embossc_end_to_end
 #print axioms C16_parse_error_group
